@@ -25,7 +25,7 @@ CHECKS["C02"] = dict(level="fault_enumeration", ref="6/C02",
    technique="deterministic simulation: sink/slice-writer fault enumeration + seeded call histories vs first clean encoding, replayable tape")
 CHECKS["C05"] = dict(level="exploration", ref="6/C05",
    text="Seeded search over packager API histories (single/multi-track, full/metadata-only/interval additions, empty tracks, foreign boxes, optimisation, either encoder), segment fetch order/duplication and delivery schedules; read-back by GetFullSamples and by an independent demuxer must equal the producer's sample log per fragment and track.",
-   note="Only documented-valid API histories; fault-free transport; payload pools and field pools bound the values; reference demuxer vsim/ref (written from ISO/IEC 14496-12) trusted.",
+   note="Only documented-valid API histories (incl. encoding the fragment under construction between two additions); one open known finding (samples added after an encode with trun optimisation take the earlier tfhd defaults: identified by a run-level class tag set when that history occurs in an optimised segment); fault-free transport; payload pools and field pools bound the values; reference demuxer vsim/ref (written from ISO/IEC 14496-12) trusted.",
    technique="deterministic simulation: seeded producer history + unit transport (order/dup) + delivery schedule; conservation/order/exactly-once vs sample log")
 CHECKS["C03"] = dict(level="exploration", ref="6/C03",
    text="Seeded search over byte strings (corpus, packager streams, size-repaired unit-transport rearrangements), reader delivery schedules, stream cuts/read errors and sink capacities; the property's precondition (a path accepts and reproduces X exactly) is implemented literally and the other path must then accept and be deep-equal incl. grouping and start positions; Encode vs EncodeSW compared on sampled nodes with identical capacity on both sinks.",
